@@ -259,6 +259,9 @@ class Ref:
         for b in self.by[name].get('bases', []):
             if b in self.reg:
                 node = self.savorize(node, b)
+        if self.kind(name) == 'enum' and node[0] == 's' and node[1] == TAGP + 'bool':
+            # an enum member spelt like a boolean is read as a string
+            node = ['s', TAGP + 'str', node[2]]
         for op in self.by[name].get('savorize') or []:
             node = self.apply_op(node, op)
         return node
@@ -298,6 +301,9 @@ class Ref:
                      else pt.map_attribute_to_index)(node, op[1], op[2], op[3])
                 except pt.Unspecified as e:
                     raise Unsupported(str(e))
+        elif k == 'scalar_upper':
+            if node[0] == 's' and node[1] == TAGP + 'str':
+                node = ['s', node[1], node[2].upper()]
         elif k == 'scalar_to_map':
             if node[0] == 's' and node[1] == TAGP + 'str':
                 node = ['m', pt.MAP, [[pt.s(op[1]), pt.s(node[2])]]]
